@@ -70,6 +70,12 @@ Loads == [
               L("cube.data", "au", 5), L("cellvecs", "au", 6) >>,
   fcidump |-> << L("one_ints.core_mo", "au", 12), L("two_ints.two_mo", "au", 12), L("core_energy", "au", 12), D("nelec"), D("spinpol") >>,
   gaussianlog |-> << L("one_ints.olp", "au", 6), L("one_ints.kin_ao", "au", 6), L("one_ints.na_ao", "au", 6), L("two_ints.er_ao", "au", 12) >>,
+  \* program output: the blocks the readers look for, rendered in the shape the programs print them
+  orcalog |-> << D("atnums"), L("atcoords", "au", 6), L("energy", "au", 12), L("moments.(1,c)", "au", 5), L("extra.scf_energies", "au", 8) >>,
+  qchemlog |-> << D("atnums"), L("atcoords", "angstrom", 10), L("energy", "au", 10), L("atcharges.mulliken", "au", 6),
+                  L("extra.nuclear_repulsion_energy", "au", 8), L("mo.energies", "au", 4), D("lot"), D("obasis_name"), D("run_type"),
+                  L("athessian", "au", 7) >>,
+  gamess |-> << D("atnums"), L("atcoords", "angstrom", 10), L("energy", "au", 10), L("atgradient", "au", 14), L("athessian", "au", 9), D("title") >>,
   gaussianinput |-> << D("atnums"), L("atcoords", "angstrom", 8), D("title") >>,
   fchk |-> << D("atnums"), L("atcoords", "au", 8), L("atcorenums", "au", 8), L("energy", "au", 8), L("atmasses", "amu", 8),
               L("atgradient", "au", 8), L("athessian", "au", 8), L("atcharges.mulliken", "au", 8), L("moments.(1,c)", "au", 8),
